@@ -185,7 +185,7 @@ func (e *Env) absBuiltin(name string, call *ast.CallExpr, st *State) (Value, boo
 		}
 	case "append":
 		// append(x[:0], k...) / append([]byte(nil), k...) / append(internalKey{}, k...): a copy of k
-		if call.Ellipsis.IsValid() && len(call.Args) == 2 {
+		if at := e.Info.TypeOf(call.Args[len(call.Args)-1]); call.Ellipsis.IsValid() && len(call.Args) == 2 && at != nil && (isInternalKeyType(at) || isByteSlice(at)) {
 			src := e.eval(call.Args[1], st)
 			switch k := src.(type) {
 			case *KeyV:
